@@ -103,10 +103,14 @@ gen_config(sim::Plan& p, sim::Rng& r, bool thorough)
   // scatter scenario (drawn last so that earlier draws keep their values)
   p.cfg["random"] = r.chance(0.4);
   p.cfg["sp"] = r.range(-1, 5);
+  p.cfg["park_event"] = r.chance(0.5) ? 0 : r.range(1, 4); // hold back the k-th thread that wins a single / unlocks / locks / takes a chunk
+  p.cfg["park_k"] = p.cfg["park_event"] == 4 ? r.range(1, 8) : r.range(1, 3);
+  p.cfg["pct_sync"] = r.chance(0.5); // PCT: change points at runtime entries instead of memory accesses
+  p.cfg["pct_d"] = p.cfg["pct_sync"] ? r.range(2, 4) : p.cfg["pct_d"];
 }
 
 inline sc::Params
-sched_params(const sim::Plan& p, int threads, long est_yields)
+sched_params(const sim::Plan& p, int threads, long est_yields, long est_syncs = 1000)
 {
   sc::Params sp;
   sp.threads = threads;
@@ -117,6 +121,10 @@ sched_params(const sim::Plan& p, int threads, long est_yields)
   sp.est_yields = est_yields > 0 ? est_yields : 100000;
   sp.seed = (uint64_t)p.c("sched_seed", 1);
   sp.max_yields = est_yields > 0 ? est_yields * 60 + 2000000 : 0;
+  sp.pct_sync = p.c("pct_sync", 0) != 0;
+  sp.park_event = (int)p.c("park_event", 0);
+  sp.park_k = (int)p.c("park_k", 1);
+  sp.est_syncs = std::max<long>(10, est_syncs);
   return sp;
 }
 
@@ -538,9 +546,9 @@ run_scenario(const sim::Plan& p, const std::string& scen, sim::Result& res)
   sc::Params sp1;
   sp1.threads = 1;
   Outcome ref = fn(p, 1, sp1);
-  const long est = sc::stats().yields;
+  const long est = sc::stats().yields, est_syncs = sc::stats().syncs;
   // 2. the same plan with `threads` simulated threads under the seeded schedule
-  sc::Params sp = sched_params(p, threads, est);
+  sc::Params sp = sched_params(p, threads, est, est_syncs);
   Outcome par = fn(p, threads, sp);
   const sc::Stats st = sc::stats();
   set_num_threads(1);
@@ -564,9 +572,11 @@ run_scenario(const sim::Plan& p, const std::string& scen, sim::Result& res)
     sim::probe("nested_region_encountered", st.nested);
   if (st.barrier_waits)
     sim::probe("barrier_waits", st.barrier_waits);
+  if (st.parked)
+    sim::probe(("park_event_fired_kind_" + std::to_string(sp.park_event)).c_str(), st.parked);
   if (threads > 8)
     sim::probe("more_than_8_threads");
-  sim::probe(("strategy_" + std::to_string(sp.strategy)).c_str());
+  sim::probe(("strategy_" + std::to_string(sp.strategy) + (sp.strategy == sc::PCT && sp.pct_sync ? "_sync" : "")).c_str());
   if (st.worker_exceptions)
     sim::fail("mt_vs_st:" + scen + ":exception", "an exception escaped from a parallel region body in a worker thread (std::terminate in OpenMP)");
   compare(scen, ref, par, exact, threads);
